@@ -1,4 +1,5 @@
 import Obao.Proofs.View
+import Obao.Model.NsLoad
 import Obao.Proofs.Router
 import Obao.Proofs.Confine
 /-! C12 — mounts, cubbyholes and namespaces are confined to their own storage and scope. -/
@@ -600,5 +601,44 @@ namespace's key space -/
 theorem rotation_writes_unprefixed_cex :
     ∃ w ∈ rotationWritesUnprefixed "namespaces/u/", ¬ ("namespaces/u/".toList <+: w.2.toList) := by
   refine ⟨("put", "core/shamir-kek"), by decide, by decide⟩
+
+/-! ### a namespace tree comes back whole when its sealed ancestor is unsealed (finding F99) -/
+section NsLoad
+open Obao.NsLoad
+
+/-- **unseal_loads_whole_subtree.** For every (flat) namespace storage, every namespace `u` and every recursion depth:
+the unseal of `u` loads exactly the descendants of `u` — children, grandchildren, … — in depth-first order. -/
+theorem unseal_loads_whole_subtree (st : Store) (fuel u : Nat) : unsealLoad st fuel u = desc st fuel u := by
+  unfold unsealLoad
+  induction fuel generalizing u with
+  | zero => rfl
+  | succ f ih =>
+    show (st.list [u]).flatMap (fun c => c :: load st f [] ([] ++ [c])) = (st.kids u).flatMap (fun c => c :: desc st f c)
+    have : ∀ c, load st f [] ([] ++ [c]) = desc st f c := fun c => ih c
+    simp only [this]
+    rfl
+
+/-- **finding F99 (repaired)**: with the namespace's own view passed as the barrier the children's views are nested
+(`namespaces/<u>/namespaces/<c>/`, always empty): only the DIRECT children are loaded, whatever the depth. -/
+theorem unseal_nested_view_direct_children_only (st : Store) (fuel u : Nat) :
+    unsealLoadNested st (fuel + 1) u = st.kids u := by
+  unfold unsealLoadNested
+  show (st.list [u]).flatMap (fun c => c :: load st fuel [u] ([u] ++ [c])) = st.kids u
+  have : ∀ c, load st fuel [u] ([u] ++ [c]) = [] := by
+    intro c
+    cases fuel with
+    | zero => rfl
+    | succ f => show (st.list [u, c]).flatMap _ = []; rfl
+  simp only [this]
+  show (st.kids u).flatMap (fun c => [c]) = st.kids u
+  induction st.kids u with
+  | nil => rfl
+  | cons a r ih => simp [List.flatMap_cons, ih]
+
+/-- the difference is real: `1 → 2 → 3` — the repaired unseal of 1 loads 2 and 3, the nested-view one only 2 -/
+example : let st : Store := { kids := fun u => if u = 1 then [2] else if u = 2 then [3] else [] }
+    unsealLoad st 5 1 = [2, 3] ∧ unsealLoadNested st 5 1 = [2] := by decide
+
+end NsLoad
 
 end C12
